@@ -273,6 +273,24 @@ pub fn run(ctx: &Ctx) {
             if let Ok(s) = (b.pw_wrap)(kind, &pass, Some(&p), &key) {
                 blobs.push((Blob { op: "pbkw", kind, backend: bi, secret: pass, data: paserk_bytes(&s).unwrap_or_default() }, vec![b"hunter3".to_vec(), vec![], b"Hunter2".to_vec()]));
             }
+            // long passwords (a KDF front end that truncates or pre-hashes): 64, 65, 128, 129 and 300 bytes, the other
+            // passwords share a long prefix and differ at the end, one byte appended, one byte removed
+            if kind == "local" {
+                for plen in [64usize, 65, 128, 129, 300] {
+                    let pass: Vec<u8> = (0..plen).map(|i| b'a' + (i % 26) as u8).collect();
+                    let p = cheap_params(b, &mut g);
+                    if let Ok(s) = (b.pw_wrap)(kind, &pass, Some(&p), &key) {
+                        let mut o1 = pass.clone();
+                        *o1.last_mut().unwrap() ^= 1;
+                        let mut o2 = pass.clone();
+                        o2.push(b'x');
+                        let o3 = pass[..plen - 1].to_vec();
+                        let mut o4 = pass.clone();
+                        o4.extend_from_slice(&pass);
+                        blobs.push((Blob { op: "pbkw", kind, backend: bi, secret: pass, data: paserk_bytes(&s).unwrap_or_default() }, vec![o1, o2, o3, o4]));
+                    }
+                }
+            }
         }
         if let Some((sk, pk, _)) = keys.recipients.first() {
             let others: Vec<Vec<u8>> = keys.recipients.iter().skip(1).map(|r| r.0.clone()).collect();
